@@ -623,7 +623,8 @@ Qed.
 (** ** the token loop of one level *)
 Inductive loop_cause (e : error) : Prop :=
 | LCReact : react_err_at e -> loop_cause e
-| LCUnknown tok : In tok T -> unknown_cause c tok e -> loop_cause e
+| LCUnknown tok : In tok T -> unknown_cause c tok e ->
+    In (e_kind e) [EUnknownArgument; EInvalidSubcommand; EArgumentConflict] -> loop_cause e
 | LCNoEq tok i : In tok T -> noeq_cause tok i -> e = mkerr c ENoEquals i -> loop_cause e
 | LCUnneeded tok i : In tok T -> unneeded_cause tok i -> e = mkerr c ETooManyValues i -> loop_cause e
 | LCExtUtf8 tok : In tok T -> utf8_valid tok = false -> is_set s_allow_external c = true ->
@@ -728,7 +729,7 @@ Proof.
       - eapply okE_bind; [apply resolve_pending_ignore_L|]. intros st2 _. cbn. eapply LCUnneeded; [exact Htok|exact Hpr|reflexivity].
       - cbn. split; [exact HK1|]. eapply LI'_mt; [exact Hpr|exact HL].
       - eapply okE_bind; [apply resolve_pending_ignore_L|]. intros st2 _. cbn. eapply LCNoEq; [exact Htok|exact Hpr|reflexivity].
-      - eapply okE_bind; [apply resolve_pending_ignore_L|]. intros st2 _. cbn. eapply LCUnknown; [exact Htok|exact Hnm].
+      - eapply okE_bind; [apply resolve_pending_ignore_L|]. intros st2 _. cbn. eapply LCUnknown; [exact Htok|exact Hnm|cbn; auto].
       - cbn. split; [exact HK1|]. eapply LI'_mt; [exact Hpr|exact HL]. }
     destruct (is_escape tok).
     { destruct (state_arg c (l_pst ls)) as [sa|e0 s0|p0] eqn:Esa; cbn [rbind]; [|exfalso; eapply state_arg_not_err, Esa|exact I].
@@ -785,7 +786,7 @@ Proof.
       destruct (a_last a && negb (l_trailing ls1)) eqn:Elast.
       + eapply okE_bind; [apply resolve_pending_ignore_L|]. intros s2 _. cbn.
         apply andb_prop in Elast. destruct Elast as [Elast _].
-        eapply LCUnknown; [exact Htok|]. eapply UCLast; [exact Eg|exact Elast|reflexivity].
+        eapply LCUnknown; [exact Htok| |cbn; auto]. eapply UCLast; [exact Eg|exact Elast|reflexivity].
       + assert (Push : forall s2, K s2 ->
                   okE lr_post loop_cause
                     (if check_terminator a tok
@@ -807,7 +808,8 @@ Proof.
         eapply okE_bind; [apply resolve_pending_ignore_L|]. intros s2 _. cbn.
         eapply LCExtUtf8; [exact Htok|exact Eu|exact Eext|reflexivity].
       + eapply okE_bind; [apply resolve_pending_ignore_L|]. intros s2 _. cbn.
-        eapply LCUnknown; [exact Htok|]. eapply UCNoPos; [exact Eg|exact Eext|reflexivity]. }
+        eapply LCUnknown; [exact Htok|eapply UCNoPos; [exact Eg|exact Eext|reflexivity]|].
+        destruct (match_arg_error_kinds c tok (l_vaf ls1) (l_trailing ls1)) as [_ [Hk|[[Hk _]|[Hk _]]]]; rewrite Hk; cbn; auto. }
   destruct (if l_trailing ls1 then PSValuesDone else l_pst ls1) eqn:Est.
   - exact Hpos.
   - assert (Hi : l_pst ls1 = PSOpt i) by (destruct (l_trailing ls1); [discriminate|exact Est]).
@@ -822,4 +824,146 @@ Proof.
   - exact Hpos.
 Qed.
 
+
+(** ** the environment and default phases *)
+Lemma fold_res_okE {A} (step : res ps -> A -> res ps) (l : list A) (Q : A -> Prop) Qe :
+  (forall x, In x l -> Q x) ->
+  (forall acc x, Q x -> okE K Qe acc -> okE K Qe (step acc x)) ->
+  forall acc, okE K Qe acc -> okE K Qe (fold_left step l acc).
+Proof.
+  intros HQ Hstep. induction l as [|x t IH]; intros acc Hacc; cbn [fold_left]; [exact Hacc|].
+  apply IH; [intros y Hy; apply HQ; right; exact Hy|]. apply Hstep; [apply HQ; left; reflexivity|exact Hacc].
+Qed.
+
+Lemma add_env_K st : K st -> okE K react_err_at (add_env c st).
+Proof.
+  intros HK. unfold add_env. destruct Vt_ok as [[_ [_ [_ [_ [_ [_ [V7 _]]]]]]] _].
+  apply (fold_res_okE _ (c_args c) (fun a => In a (c_args c))); [auto| |exact HK].
+  intros acc a Hin Hacc. eapply okE_bind; [exact Hacc|]. intros s HKs.
+  destruct (mt_contains (mt s) (a_id a)); [exact HKs|].
+  destruct (a_env a) as [v|] eqn:Eenv; [|exact HKs].
+  eapply okE_bind; [apply (react_K None SEnv a [v] None s Hin)|];
+    [cbn; rewrite Eenv; discriminate|repeat constructor; eapply V7; eassumption|exact HKs|].
+  intros x [Hx _]. exact Hx.
+Qed.
+
+Lemma add_default_value_K a st : In a (c_args c) -> K st -> okE K react_err_at (add_default_value c a st).
+Proof.
+  intros Hin HK. unfold add_default_value. destruct Vt_ok as [[_ [_ [_ [_ [_ [V6 [_ V8]]]]]]] _].
+  assert (Plain : okE K react_err_at (if negb (is_nil (a_default a)) then
+                              if mt_contains (mt st) (a_id a) then ROk st
+                              else do x <- react c None SDefault a (a_default a) None st; ROk (fst x)
+                            else ROk st)).
+  { destruct (negb (is_nil (a_default a))); [|exact HK]. destruct (mt_contains (mt st) (a_id a)); [exact HK|].
+    eapply okE_bind; [apply (react_K None SDefault a (a_default a) None st Hin I (V6 a Hin) HK)|]. intros x [Hx _]. exact Hx. }
+  destruct (negb (is_nil (a_default_ifs a)) && negb (mt_contains (mt st) (a_id a))); [|exact Plain].
+  destruct (List.find _ (a_default_ifs a)) as [[[i p] [d|]]|] eqn:Ef; [|exact HK|exact Plain].
+  apply List.find_some in Ef. destruct Ef as [Hind _].
+  eapply okE_bind; [apply (react_K None SDefault a [d] None st Hin I)|];
+    [repeat constructor; eapply V8; eassumption|exact HK|].
+  intros x [Hx _]. exact Hx.
+Qed.
+
+Lemma add_defaults_K st : K st -> okE K react_err_at (add_defaults c st).
+Proof.
+  intros HK. unfold add_defaults.
+  apply (fold_res_okE _ (c_args c) (fun a => In a (c_args c))); [auto| |exact HK].
+  intros acc a Hin Hacc. eapply okE_bind; [exact Hacc|]. intros s HKs. apply add_default_value_K; assumption.
+Qed.
+
+Lemma K_set_sub st sub : K st -> K (st <| mt := (mt st) <| mt_sub := sub |> |>).
+Proof. intros [Hp He]. split; assumption. Qed.
+
+Lemma K_fresh st : mt st = matcher_new -> K st.
+Proof.
+  intros H. unfold K. rewrite H. split; [intros p Hp; discriminate|intros i m []].
+Qed.
+
 End Level.
+
+(** * what an error of one level (command [c], line [T]) is caused by *)
+Inductive level_breaks (c : cmd) (T : list bytes) (e : error) : Prop :=
+| LBLoop : loop_cause c T e -> level_breaks c T e
+    (* raised while a token, the pending occurrence, an environment value or a default was processed *)
+| LBSubConflict name : is_set s_args_negate_subs c = true -> e = mkerr c EArgumentConflict name -> level_breaks c T e
+| LBHelpSub names : suffix_of names T -> e = help_walk c names -> level_breaks c T e
+| LBExtValue v : In v T -> is_set s_allow_external c = true ->
+    vp_parse (opt_default VPOsString (c_ext_vp c)) v = Some (e_kind e) -> e_arg e = [] -> level_breaks c T e
+| LBValidate m k x : faithful c T m -> validate c m = VErr k x -> e = mkerr c k x -> level_breaks c T e.
+
+(** the error belongs to this level or to a level further down the chain of subcommands, each parsing a tail of the line *)
+Inductive breaks : cmd -> list bytes -> error -> Prop :=
+| BHere c T e : level_breaks c T e -> breaks c T e
+| BSub c T n sc T' e : build_subcommand c n = Some sc -> suffix_of T' T -> breaks sc T' e -> breaks c T e.
+
+Lemma external_fill_cause c vp st vals e st' :
+  fold_left (fun rm v => do m <- rm;
+                         match vp_parse vp v with
+                         | Some k => RErr (mkerr c k []) st
+                         | None => expect 458 (add_val_to m ext_id v)
+                         end) vals (ROk (start_custom_arg_m matcher_new (arg_new ext_id) SCmdLine)) = RErr e st' ->
+  exists v, In v vals /\ vp_parse vp v = Some (e_kind e) /\ e_arg e = [].
+Proof.
+  intros H.
+  apply (fold_res_err (fun v m => match vp_parse vp v with
+                                  | Some k => RErr (mkerr c k []) st
+                                  | None => expect 458 (add_val_to m ext_id v) end)) in H.
+  destruct H as [[s Hs]|[v [m [Hin [s Hf]]]]]; [discriminate Hs|].
+  destruct (vp_parse vp v) as [k|] eqn:Ev; [|exfalso; eapply expect_not_err, Hf].
+  injection Hf as <- _. exists v. split; [exact Hin|]. split; [exact Ev|reflexivity].
+Qed.
+
+Theorem gmw_breaks : forall fuel c toks st0, tree_ok fuel c -> K c toks st0 ->
+  okE (fun _ => True) (breaks c toks) (get_matches_with fuel c toks st0).
+Proof.
+  induction fuel as [|f IH]; intros c toks st0 Hok HK; [exact I|].
+  destruct Hok as [Hwf [Happ Hch]]. pose proof Hwf as [_ [_ [W3 _]]].
+  cbn [get_matches_with].
+  match goal with |- okE _ _ (match ?pp with ROk _ => _ | RErr _ _ => _ | RPanic _ => _ end) => set (parsed := pp) end.
+  assert (Hparsed : okE (K c toks) (breaks c toks) parsed).
+  { subst parsed. eapply okE_bind.
+    - eapply okE_weaken; [apply (parse_loop_K c toks W3 toks (mkL PSValuesDone 1 false false) st0 (suffix_refl toks) HK I)| |].
+      + intros lr Hlr. exact Hlr.
+      + intros e He. apply BHere, LBLoop. exact He.
+    - intros lr Hlr. destruct lr as [st|name keep vaf st rest|name vals st|names st].
+      + exact Hlr.
+      + destruct Hlr as [HKs Hrest].
+        destruct (is_set s_args_negate_subs c && vaf) eqn:Eneg.
+        { cbn. apply BHere. eapply LBSubConflict; [|reflexivity]. apply andb_prop in Eneg. apply Eneg. }
+        destruct (find_subcommand c name) as [sc0|]; cbn [expect rbind]; [|exact I].
+        destruct (build_subcommand c (c_name sc0)) as [sc|] eqn:Eb; [|exact HKs].
+        destruct (negb (assert_app sc)); [exact I|].
+        pose proof (Hch _ _ Eb) as Hsc.
+        match goal with |- context [get_matches_with f sc rest ?s0] =>
+          assert (Hsub : okE (fun _ => True) (breaks sc rest) (get_matches_with f sc rest s0))
+            by (apply IH; [exact Hsc|apply K_fresh; destruct keep; reflexivity]);
+          destruct (get_matches_with f sc rest s0) as [sub_st|e sub_st|site]
+        end; cbn [okE] in Hsub |- *.
+        * apply K_set_sub; exact HKs.
+        * destruct (is_set s_ignore_errors c); [apply K_set_sub; exact HKs|].
+          cbn. eapply BSub; [exact Eb|exact Hrest|exact Hsub].
+        * exact I.
+      + destruct Hlr as [HKs [Hsuf Hext]].
+        match goal with |- okE _ _ (rbind ?fl _) => destruct fl as [m|e s|x] eqn:Efill end; cbn [rbind okE]; [|..].
+        * apply K_set_sub; exact HKs.
+        * apply external_fill_cause in Efill. destruct Efill as [v [Hv [Hk Ha]]].
+          apply BHere. eapply (LBExtValue c toks e v); [|exact Hext|exact Hk|exact Ha].
+          eapply suffix_incl; [exact Hsuf|right; exact Hv].
+        * exact I.
+      + cbn. destruct Hlr as [_ Hn]. apply BHere. eapply LBHelpSub; [exact Hn|reflexivity]. }
+  destruct parsed as [st|e st|site]; cbn [okE] in Hparsed; [| |exact I].
+  - eapply okE_bind; [eapply okE_weaken; [apply (resolve_pending_K c toks st Hparsed)|intros s Hs; exact Hs|]|].
+    { intros e He. apply BHere, LBLoop, LCReact. exact He. }
+    intros st1 [HK1 _].
+    eapply okE_bind; [eapply okE_weaken; [apply (add_env_K c toks st1 HK1)|intros s Hs; exact Hs|]|].
+    { intros e He. apply BHere, LBLoop, LCReact. exact He. }
+    intros st2 HK2.
+    eapply okE_bind; [eapply okE_weaken; [apply (add_defaults_K c toks st2 HK2)|intros s Hs; exact Hs|]|].
+    { intros e He. apply BHere, LBLoop, LCReact. exact He. }
+    intros st3 HK3. unfold vres_to_res.
+    destruct (validate c (mt st3)) as [|k a|s] eqn:Ev; cbn; [exact I| |exact I].
+    apply BHere. eapply LBValidate; [apply K_faithful; exact HK3|exact Ev|reflexivity].
+  - destruct (is_set s_ignore_errors c); [|exact Hparsed].
+    destruct (add_env c st) as [s1|e1 s1|x1]; try exact I;
+      match goal with |- context [add_defaults c ?x] => destruct (add_defaults c x) end; try exact I; exact Hparsed.
+Qed.
